@@ -34,9 +34,12 @@ func (*DeflateCompress) Compress(data []byte) ([]byte, error) {
 		log.Error(err)
 		return nil, err
 	}
-	defer fw.Close()
 	fw.Write(data)
-	fw.Flush()
+	// the final block is only written by Close, so close before taking the bytes
+	if err = fw.Close(); err != nil {
+		log.Error(err)
+		return nil, err
+	}
 	return buf.Bytes(), nil
 }
 
